@@ -463,6 +463,7 @@ exit:
 type iptr struct {
 	insts   []inst
 	capture int
+	closed  map[int]bool // capture slots whose capture is complete at this point of the pattern
 }
 
 func compilePattern(p pattern, ps ...*iptr) []inst {
@@ -470,7 +471,7 @@ func compilePattern(p pattern, ps ...*iptr) []inst {
 	toplevel := false
 	if len(ps) == 0 {
 		toplevel = true
-		ptr = &iptr{[]inst{inst{opSave, nil, 0, -1}}, 2}
+		ptr = &iptr{[]inst{inst{opSave, nil, 0, -1}}, 2, map[int]bool{}}
 	} else {
 		ptr = ps[0]
 	}
@@ -505,6 +506,7 @@ func compilePattern(p pattern, ps ...*iptr) []inst {
 		}
 	case *posCapPattern:
 		ptr.insts = append(ptr.insts, inst{opPSave, nil, ptr.capture, -1})
+		ptr.closed[ptr.capture] = true
 		ptr.capture += 2
 	case *capPattern:
 		c0, c1 := ptr.capture, ptr.capture+1
@@ -512,9 +514,14 @@ func compilePattern(p pattern, ps ...*iptr) []inst {
 		ptr.insts = append(ptr.insts, inst{opSave, nil, c0, -1})
 		compilePattern(pat.Pattern, ptr)
 		ptr.insts = append(ptr.insts, inst{opSave, nil, c1, -1})
+		ptr.closed[c0] = true
 	case *bracePattern:
 		ptr.insts = append(ptr.insts, inst{opBrace, nil, pat.Begin, pat.End})
 	case *numberPattern:
+		if !ptr.closed[pat.N*2] {
+			// %n naming a capture that does not exist or is still open (as in "(a%1)")
+			panic(newError(_UNKNOWN, "invalid capture index"))
+		}
 		ptr.insts = append(ptr.insts, inst{opNumber, nil, pat.N, -1})
 	}
 	if toplevel {
